@@ -3,7 +3,8 @@
    Each thread runs a list of atomic actions.  A plain decision takes its snapshot of the candidates and
    computes on it: one shared access (ADecide).  A cached ask is three shared accesses with thread-local state
    in between: cache lookup, snapshot+compute on a miss, cache insert (functools.lru_cache calls the wrapped
-   function outside its own lock).  A mutation through the observable storage is two: apply, then invalidate. *)
+   function outside its own lock).  A mutation through the observable storage is two: apply, then invalidate.
+   AAsk is a cached ask through a back-end that is atomic (one shared access). *)
 From Coq Require Import List Bool Arith.
 From Vakt Require Import Base.PyMonad Model.Lru.
 Import ListNotations.
@@ -21,7 +22,9 @@ Section conc.
   | AInval                 (* notify -> cache invalidate *)
   | ALookup (q : Q)        (* cached ask, step 1 *)
   | ASnap (q : Q)          (* cached ask, step 2: only after a miss *)
-  | AInsert (q : Q).       (* cached ask, step 3: store the computed answer; return *)
+  | AInsert (q : Q)        (* cached ask, step 3: store the computed answer; return *)
+  | AAsk (q : Q).          (* cached ask through a back-end that looks up, computes and stores under ONE lock (a
+                              user-supplied back-end may do that; functools.lru_cache does not) *)
 
   Inductive local : Type := Idle | Hit (a : bool) | Miss | Computed (a : bool).
 
@@ -47,6 +50,13 @@ Section conc.
         | Computed v => ({| sh_store := sh_store sh; sh_cache := lru_insert cap q v (sh_cache sh) |}, Idle, Some (OAnswer v))
         | Hit v => (sh, Idle, Some (OAnswer v))
         | _ => (sh, Idle, None)
+        end
+    | AAsk q =>
+        match lru_find qeq q (sh_cache sh) with
+        | Some v => ({| sh_store := sh_store sh; sh_cache := (q, v) :: lru_remove qeq q (sh_cache sh) |}, lo,
+                     Some (OAnswer v))
+        | None => let v := dec (sh_store sh) q in
+                  ({| sh_store := sh_store sh; sh_cache := lru_insert cap q v (sh_cache sh) |}, lo, Some (OAnswer v))
         end
     end.
 
